@@ -292,6 +292,19 @@ func (env *Env) eval(e *Expr) Val {
 			if v, ok := env.fr.params[e.Name]; ok {
 				return v
 			}
+			// captured variables of a closure inlined into its parent
+			for fv, v := range env.fr.freeVar {
+				if fv.Name() == e.Name {
+					if l := c.ptrToLoc(v); l != nil {
+						return c.readLoc(env.st, l)
+					}
+				}
+			}
+			if env.fr.parent != nil && env.fr.fn.Parent() == env.fr.parent.fn {
+				n := *env
+				n.fr = env.fr.parent
+				return n.eval(e)
+			}
 		}
 		if v, ok := env.st.ghost[e.Name]; ok {
 			return v
@@ -526,6 +539,9 @@ func (env *Env) evalBin(e *Expr) Val {
 	case "<", "<=", ">", ">=":
 		return mkBool("(" + op + " " + oneTerm(a, e) + " " + oneTerm(b, e) + ")")
 	case "+", "-", "*":
+		if op == "+" && a.K == KStr && b.K == KStr {
+			return Val{K: KStr, T: "(gstr.cat " + a.T + " " + b.T + ")", Ty: a.Ty}
+		}
 		return mkInt("("+op+" "+oneTerm(a, e)+" "+oneTerm(b, e)+")", nil)
 	case "/":
 		return mkInt("(div "+oneTerm(a, e)+" "+oneTerm(b, e)+")", nil)
